@@ -103,6 +103,9 @@ def run(tier, seed, replay=None):
                 if not o["equal"]:
                     chk.violation("impl:%s:missed:%s" % (variant, json.dumps({k: v for k, v in c.items() if k != "k"})),
                                   "contact model %s (%s threads) on tissue %s: forces differ from the all-pairs reference (%s)" % (variant, threads, json.dumps(c), o["rel"]), {"variant": variant, "case": c})
+                elif not o.get("equal_reused", True):
+                    chk.violation("impl:%s:reused:%s" % (variant, json.dumps({k: v for k, v in c.items() if k != "k"})),
+                                  "contact model %s (%s threads) on tissue %s: a model object re-used from the previous tissues (as the solver re-uses its contact model and grid at every iteration) gives forces that differ from the all-pairs reference" % (variant, threads, json.dumps(c)), {"variant": variant, "case": c})
                 elif not o["net_zero"]:
                     chk.violation("impl:%s:net:%s" % (variant, json.dumps({k: v for k, v in c.items() if k != "k"})),
                                   "contact model %s (%s threads) on tissue %s: the contact forces do not add up to zero (%s)" % (variant, threads, json.dumps(c), o["rel"]), {"variant": variant, "case": c})
